@@ -60,6 +60,30 @@ pub(super) fn validate_type_conditions(
                 )));
             }
         }
+        TypeId::Object(object_id) => {
+            // On an object, a type condition can only apply if it names an interface
+            // the object implements or a union the object belongs to.
+            let object = query.schema.get_object(object_id);
+            let can_apply = match selected_type {
+                TypeId::Interface(interface_id) => {
+                    object.implements_interfaces.contains(&interface_id)
+                }
+                TypeId::Union(union_id) => query
+                    .schema
+                    .get_union(union_id)
+                    .variants
+                    .contains(&parent_schema_type_id),
+                _ => false,
+            };
+
+            if !can_apply {
+                return Err(QueryValidationError::new(format!(
+                    "The spread {}... on {} is not valid.",
+                    object.name,
+                    selected_type.name(query.schema)
+                )));
+            }
+        }
         _ => (),
     }
 
